@@ -206,8 +206,11 @@ def run_case(qn, c, macros, args):
     finally:
         for k, v in saved.items():
             setattr(mod, k, v)
+    # witnesses of the contract's existential ghost functions (ghost_out), computed from the actual result
+    wit = {nm: f(call_args, result) for nm, f in (c.get("runtime_ghost_out") or {}).items()}
     for g in ghosts:
         con.extra = dict(consts, **g)
+        con.extra.update(wit)
         bad, skipped = con.failed_ensures(call_args, old_args, result)
         if bad:
             return dict(kind="postcondition", failed=[dict(index=i, text=t) for i, t in bad], result=jsonable(result),
@@ -271,6 +274,7 @@ def crosscheck(qns, n, seed):
         rng = random.Random(seed)
         ran = ok_pre = 0
         failure = None
+        cspec.UNEVALUABLE.clear()
         variants = c.get("variants") or [None]
         try:
             for i in range(n):
@@ -288,7 +292,8 @@ def crosscheck(qns, n, seed):
         except ValueError as ex:
             out.append(dict(function=qn, status="skipped", why="inputs not generatable: %s" % str(ex)[:60]))
             continue
-        out.append(dict(function=qn, status="failed" if failure else "ok", generated=ran, satisfying_precondition=ok_pre, failure=failure))
+        out.append(dict(function=qn, status="failed" if failure else "ok", generated=ran, satisfying_precondition=ok_pre, failure=failure,
+                        clauses_not_evaluated_at_run_time=sorted(cspec.UNEVALUABLE)))
     return out
 
 
